@@ -700,9 +700,10 @@ class Fold:
                 return F("shl")(*[self.scalarize(a) for a in args])
             if op in ("++", "--"):
                 lhs = unwrap(n["args"][0])
-                new = F("iter" + ("inc" if op == "++" else "dec"))(self.scalarize(args[0]))
+                old = self.scalarize(args[0])
+                new = F("iter" + ("inc" if op == "++" else "dec"))(old)
                 self.store(lhs, new, env, n)
-                return new
+                return old if len(n["args"]) == 2 else new          # operator++(int): the postfix form yields the value before the step
             if op == "*" and len(args) == 1:
                 return F("deref")(self.scalarize(args[0])) if not isinstance(args[0], Matrix) else args[0]
             if op == "->":
@@ -1004,6 +1005,11 @@ class Fold:
             v = self.ev(s["value"], env) if s.get("value") is not None else None
             self.returns.append((v, list(self.guards), s))
             self.return_envs.append(env.copy())
+            li_ = [i_ for i_, g_ in enumerate(self.guards) if isinstance(g_[0], tuple) and g_[0] and g_[0][0] == "loop"]
+            if li_:
+                # a return from inside a loop leaves the loop like a break: recorded with the loop (condition inside the iteration, value)
+                self.loop_returns = getattr(self, "loop_returns", {})
+                self.loop_returns.setdefault(self.guards[li_[-1]][0][1], []).append((self._conj(self.guards[li_[-1] + 1:]), v))
             if self.depth == 0:
                 self.event({"kind": "return", "value": v, "node": s}, None)
             self.exits.append(("return", None, list(self.guards)))
@@ -1306,6 +1312,7 @@ class Fold:
             if l_["lid"] == lid:
                 l_["breaks"] = [(bc, {key: b_env.get(key) for key in start}) for (_l, bguards, b_env) in brk
                                 for bc in [self._conj(bguards[mark + 1:])]]
+                l_["returns"] = getattr(self, "loop_returns", {}).pop(lid, [])
         # accumulation idioms
         for key, (old, a) in start.items():
             new = benv.get(key)
